@@ -148,6 +148,64 @@ def check_nested():
     return res
 
 
+RUNARG_SETS = [('g:x', 'h:g:x'), ('x', 'n::x'), ('x', 'g:x'), ('n::x', 'xn::x'), ('g:x', 'xg:x'), ('n::g:x', 'n::x'), ('x', 'n::x', 'n::g:x'), ('n::x', 'm::x'), ('g:x', 'h:x')]
+
+
+def check_run_arguments():
+    """a dependant whose run() takes the bare name as an ARGUMENT while several of its inputs end in that name: the value injected is the
+    one of the task the short form resolves to among its inputs (less-nested rule), an ambiguous short form fails instead of picking one,
+    whatever the order in which the inputs are declared"""
+    import tcv
+
+    tcv.quiet_library()
+    from pathlib import Path
+    from taskchain import Config, Task
+
+    res = Result()
+    for names in RUNARG_SETS:
+        for order in (names, tuple(reversed(names))):
+            res.add('evaluations')
+            res.add('transitions')
+            case = {'kind': 'runarg', 'names': list(names), 'order': list(order)}
+            root = scratch.fresh('c10r')
+            try:
+                by_ns = {}
+                vals = {}
+                for full in names:
+                    ns, g, n = N.parse(full)
+                    meta = type('Meta', (), dict({'name': n}, **({'task_group': ':'.join(g)} if g else {})))
+                    val = len(vals) * 10 + 7
+                    vals[full] = val
+                    src = f'def run(self) -> int:\n    return {val}\n'
+                    d = {}
+                    exec(src, d)
+                    cls = type('P' + ''.join(c for c in full if c.isalnum()), (Task,), {'Meta': meta, 'run': d['run']})
+                    by_ns.setdefault('::'.join(ns), []).append(cls)
+                d = {}
+                exec('def run(self, x) -> int:\n    return x\n', d)
+                dep = type('Dep', (Task,), {'Meta': type('Meta', (), {'name': 'dep', 'input_tasks': list(order)}), 'run': d['run']})
+                uses = [Config(Path(root) / 'data', name=f'c_{ns}', namespace=ns, data={'tasks': cl}) for ns, cl in sorted(by_ns.items()) if ns]
+                top = Config(Path(root) / 'data', name='top', data={'tasks': by_ns.get('', []) + [dep], 'uses': uses})
+                exp = N.resolve('x', list(names))
+                try:
+                    ch = top.chain()
+                    got = ('value', ch['dep'].value)
+                except Exception as e:  # noqa
+                    got = ('error', f'{type(e).__name__}: {e}')
+                if exp == N.UNSPECIFIED:
+                    continue
+                if exp in (N.AMBIGUOUS, N.NOTFOUND):
+                    if got[0] == 'value':
+                        res.violations.append(Violation('chain: ambiguous run argument silently bound to one of the inputs',
+                                                        f'inputs {list(order)}, run(self, x): got the value of {[k for k, v in vals.items() if v == got[1]]}, `x` is ambiguous among the inputs', case))
+                elif got != ('value', vals[exp]):
+                    res.violations.append(Violation('chain: run argument bound to another input than the one its name resolves to',
+                                                    f'inputs {list(order)}, run(self, x): {got}, `x` resolves to {exp} (value {vals[exp]})', case))
+            finally:
+                scratch.drop(root)
+    return res
+
+
 def _job(sets):
     import tcv
 
@@ -171,11 +229,14 @@ def run(tier, seed):
     for r in pmap(_job, [sets[i::n] for i in range(n)]):
         res.merge(r)
     res.merge(check_nested())
+    res.merge(check_run_arguments())
     res.coverage['chain_leg'] = {'name_sets': len(sets), 'universe': len(UNIVERSE), 'queries': len(QUERIES) + 1, 'triples_complete': tier != 'quick'}
     return res
 
 
 def replay(case):
+    if case.get('kind') == 'runarg':
+        return [v for v in check_run_arguments().violations if v.case == case]
     if case.get('kind') == 'nested':
         return [v for v in check_nested().violations if v.case == case]
     ev, vs = check_set(tuple(case['names']))
